@@ -600,6 +600,9 @@ class CouplingTerms(Hdf5Exportable):
         """
         L = self.L
         (op_i, i), (op_j, j) = term
+        if not 0 <= i < L:  # shift such that the first site is inside the unit cell
+            shift = i % L - i
+            i, j = i + shift, j + shift
         site_i = sites[i % L]
         site_j = sites[j % L]
         need_JW_i = site_i.op_needs_JW(op_i)
